@@ -1,4 +1,4 @@
-import DmrVerif.Lemmas.RsCode
+import DmrVerif.Lemmas.RsPoly
 
 /-!
 # C11 — Reed–Solomon (12,9) over GF(2^8): parity, exact checker, distance 4
@@ -74,6 +74,22 @@ theorem genpoly_factors :
     polyAt 0 = logMultiply (logMultiply (alphaPow 1) (alphaPow 2)) (alphaPow 3) := by
   decide +kernel
 
+/-- The syndromes of the statements below are values of the word's polynomial in GF(2^8) proper: the
+same number comes out when every multiplication is the reference one (carry-less product, long
+division by 0x11D), and the evaluation point `alphaPow j` is α^j by `alpha_powers`. -/
+theorem syndrome_spec (j : Nat) (w : Bytes) (bw : isBytes w = true) :
+    syndrome j w = w.foldl (fun acc x => clmulMod 0x11D acc (alphaPow j) ^^^ x) 0 :=
+  evalAt_spec _ (exp_lt j) w bw
+
+/-- In the polynomial ring over the field of octets: `POLYNOMIAL` is
+g = X³ + 14X² + 56X + 64 = (X − α)(X − α²)(X − α³), and an octet string has zero syndromes at
+α¹, α², α³ exactly if its polynomial (octets as coefficients, highest degree first) is a multiple of g. -/
+theorem multiple_iff_syndromes (w : Bytes) (bw : isBytes w = true) :
+    genPoly = (Polynomial.X - Polynomial.C α) * (Polynomial.X - Polynomial.C (α ^ 2))
+                * (Polynomial.X - Polynomial.C (α ^ 3)) ∧
+    (genPoly ∣ wordPoly w ↔ ∀ j, 1 ≤ j → j ≤ 3 → syndrome j w = 0) :=
+  ⟨genPoly_eq, by rw [← syndromesZero_iff_dvd w bw, syndromesZero_iff]⟩
+
 /-! ## the encoder -/
 
 /-- `generate` returns the message followed by three parity octets. -/
@@ -91,6 +107,15 @@ theorem gen_syndromes (d mask w : Bytes) (hd : d.length = 9) (hm : mask.length =
   rw [generate_eq d mask hd] at hw
   cases hw
   exact (syndromesZero_iff _).mp (encode_syndromes d mask hd hm bd) j h1 h3
+
+/-- … i.e. with the mask removed the generated word is a multiple of the generator polynomial -/
+theorem gen_multiple (d mask w : Bytes) (hd : d.length = 9) (hm : mask.length = 3)
+    (bd : isBytes d = true) (hw : generate d mask = some w) : genPoly ∣ wordPoly (unmask mask w) := by
+  rw [generate_eq d mask hd] at hw
+  cases hw
+  have hb : isBytes (unmask mask (encode d mask)) = true := by
+    rw [unmask_encode d mask hd hm, isBytes_append, bd, parityBytes_isBytes d bd]; rfl
+  exact (syndromesZero_iff_dvd _ hb).mp (encode_syndromes d mask hd hm bd)
 
 /-- every generated word passes the checker under the same mask -/
 theorem check_gen (d mask w : Bytes) (hd : d.length = 9) (hm : mask.length = 3)
@@ -114,6 +139,12 @@ theorem check_iff (w mask : Bytes) (hw : w.length = 12) (hm : mask.length = 3)
   · rw [check_eq w mask hw]
     by_cases h : encode (w.take 9) mask = w <;> simp [h]
   · rw [check_iff_syndromes w mask hw hm bw bm, syndromesZero_iff]
+
+/-- the checker accepts exactly the multiples of g (mask removed) -/
+theorem check_iff_multiple (w mask : Bytes) (hw : w.length = 12) (hm : mask.length = 3)
+    (bw : isBytes w = true) (bm : isBytes mask = true) :
+    check w mask = some true ↔ genPoly ∣ wordPoly (unmask mask w) := by
+  rw [check_iff_syndromes w mask hw hm bw bm, syndromesZero_iff_dvd _ (unmask_isBytes mask w bw bm)]
 
 /-- equivalently: exactly the generator's outputs -/
 theorem check_iff_generated (w mask : Bytes) (hw : w.length = 12) :
